@@ -3,6 +3,7 @@ import copy
 
 from .. import oracles as O
 from .. import simrun, simgen, livecases, live
+from .. import marketgen as G
 
 PROPERTY = "C11"
 LEVEL = "exploration"
@@ -48,7 +49,14 @@ class Run:
     def __init__(self, cfg):
         self.cfg = cfg
         self.names = ["A"]
-        self.tr, self.w = livecases.new_world([livecases.make_strategy("A", max_live_trade_count=1e6)], async_place=cfg.get("async", False))
+        if cfg.get("after_backtest"):
+            # a backtest ran earlier in this very process (notebook style); the live instance is then entered the way Flumine.run() does
+            _mf = G.MarketFile("1.299999999", [(1, 0, 50.0), (2, 0, 50.0)], bsp=False)
+            for i_ in range(3):
+                _mf.emit(G.T0 + 1000 * (i_ + 1), rc={(1, 0): {"atb": {2.0: 10.0}, "atl": {2.2: 10.0}}})
+            _mf.emit(G.T0 + 5000, md_changes={"status": "CLOSED"}, runner_md={(1, 0): {"status": "WINNER"}, (2, 0): {"status": "LOSER"}})
+            simrun.run_case({"seed": 0, "idx": 0, "markets": [{"id": _mf.market_id, "text": _mf.text()}], "strategies": [{"name": "BT", "actions": [{"m": _mf.market_id, "at": 0, "op": "place", "ref": "b", "sel": [1, 0], "side": "BACK", "price": 2.0, "size": 2.0}]}]})
+        self.tr, self.w = livecases.new_world([livecases.make_strategy("A", max_live_trade_count=1e6)], async_place=cfg.get("async", False), enter=bool(cfg.get("after_backtest")))
         self.worlds = [self.w]
         self.ex = self.w.exchange
         self.path = livecases.static_market()
@@ -63,6 +71,10 @@ class Run:
         self.restarted = False
         self.replaced = set()
         self.stranded_by_own_exception = set()
+        if cfg.get("cancel_fault"):
+            # the exchange refuses cancels with an error code after which the bet is still live (market suspended while the call was on its way)
+            code = cfg["cancel_fault"]
+            self.ex.plan = lambda rec: ({"outcomes": [{"status": "FAILURE", "error": code}] * len(rec["instructions"])} if rec["kind"] == "CANCEL" else None)
         if cfg.get("veto"):
             # a trading control added by the application refuses some cancel / update / replace requests (seeded); a refused request
             # leaves the order as it was
